@@ -1363,6 +1363,30 @@ def C11(ctx):
     return dict(nontrivial=nontrivial, classes=classes)
 
 
+def policy_probes(ctx, tk, ledger):
+    """probes taken inside behaviours, each with its host token. A submachine that the switch policy already reports as
+    active but whose entry has not run yet (switch point before the entry phase) has no defined inner configuration: what the
+    flags say about its substates differs between the back-ends and is described by no property; such probes keep their ids
+    only. Returns (probes, ledger of entered submachines after tk, number of reduced probes)."""
+    st = ctx.static
+    out, led, nhalf = [], set(ledger), 0
+    for k, t in enumerate(tk):
+        pp = parse(t)
+        if pp and pp[0] == 'en' and pp[1] in st.machine:
+            led.add(pp[1])
+        elif pp and pp[0] == 'ex' and pp[1] in st.machine:
+            led.discard(pp[1])
+        if t.startswith('pb{'):
+            parts = [x for x in t[3:-1].split(';') if x]
+            idparts = [x for x in parts if not re.match(r'^F\d+=', x)]
+            ids = st.parse_ids('ids{' + ';'.join(idparts) + ';}')
+            if any(mn != ctx.spec['root']['name'] and mn not in led for mn in st.active_machines(ids)):
+                t = 'pb{' + ';'.join(idparts) + ';}'
+                nhalf += 1
+            out.append((tk[k - 1] if k else '', t))
+    return out, led, nhalf
+
+
 # ---------------------------------------------------------------------------------------------- C17
 def flags_of_state(ctx, mach, s):
     sd = ctx.static.machine[mach]['states'][s]
@@ -1396,6 +1420,7 @@ def C17(ctx):
     nontrivial = []
     started = False
     in_sync = True
+    entered = set()      # ledger of entered submachines (see policy_probes)
     for i, c in enumerate(ctx.case):
         if i >= len(ctx.sut):
             break
@@ -1406,8 +1431,11 @@ def C17(ctx):
             started = False
         # probes inside behaviours: compare with the model (configuration per switch policy)
         if in_sync:
-            ps = [t for t in toks if t.startswith('pb{')]
-            pm = [t for t in ctx.model[i] if t.startswith('pb{')]
+            ps, entered_after, nh = policy_probes(ctx, toks, entered)
+            pm, _, _ = policy_probes(ctx, ctx.model[i], entered)
+            entered = entered_after
+            ps, pm = [x[1] for x in ps], [x[1] for x in pm]
+            classes['probe_with_half_entered_submachine_ids_only'] += nh
             if ps != pm:
                 k = 0
                 while k < min(len(ps), len(pm)) and ps[k] == pm[k]:
@@ -1461,6 +1489,7 @@ def C19(ctx):
     classes = Counter()
     nontrivial = []
     pol = ctx.spec['root'].get('policy', 'default')
+    entered = set()      # ledger of entered submachines
     for i, c in enumerate(ctx.case):
         if i >= len(ctx.sut):
             break
@@ -1474,8 +1503,10 @@ def C19(ctx):
             fail('C19', 'trace (probes removed) under policy %s differs from the policy-independent model at token %d: %s vs %s'
                  % (pol, k, a[k] if k < len(a) else None, b[k] if k < len(b) else None), ctx, i)
         # probes: compare one by one, remembering the behaviour that hosted each probe
-        ps = [(toks[k - 1] if k else '', t) for k, t in enumerate(toks) if t.startswith('pb{')]
-        pm = [(mt[k - 1] if k else '', t) for k, t in enumerate(mt) if t.startswith('pb{')]
+        ps, entered_after, nh = policy_probes(ctx, toks, entered)
+        pm, _, _ = policy_probes(ctx, mt, entered)
+        entered = entered_after
+        classes['probe_with_half_entered_submachine_ids_only'] += nh
         if ps != pm:
             k = 0
             while k < min(len(ps), len(pm)) and ps[k] == pm[k]:
@@ -1554,6 +1585,17 @@ def C12(ctx):
         classes['completion_fault_in_submachine_back_ct_not_compared'] += 1
     for j in range(fi, len(ctx.sut) if compare else fi):
         a, b = ctx.sut[j], ctx.model[j]
+        if ctx.cfg % 10 == 2:
+            # the same for a throw of the generated continuation
+            stop = False
+            for k2, t2 in enumerate(a):
+                if t2 == '!throw' and k2:
+                    h2 = parse(a[k2 - 1])
+                    if h2 and h2[3] == 'none' and st.level.get(behaviour_fsm(ctx, h2), 1) >= 2:
+                        stop = True
+            if stop:
+                classes['completion_fault_in_submachine_back_ct_not_compared'] += 1
+                break
         if a != b:
             kk = 0
             while kk < min(len(a), len(b)) and a[kk] == b[kk]:
